@@ -123,8 +123,39 @@ func outputPipelineRule(r *Run, rule string) {
 	}
 	var names []string
 	nBad := 0
+	// the partial helper's own steps are not part of this pipeline: an unexported function all of whose callers yield
+	// template.HTML (the partial's text on its way into the layout: the content-type-conditional JS escape there is
+	// C17.R4's subject)
+	htmlFirst := func(fn *ssa.Function) bool {
+		res := fn.Signature.Results()
+		return res.Len() >= 1 && namedIs(res.At(0).Type(), htmlTplPath, "HTML")
+	}
+	exempt := map[*ssa.Function]bool{}
+	for changed := true; changed; {
+		changed = false
+		for fn := range member {
+			if exempt[fn] || fn == m.top || fnObject(fn) == nil || fnObject(fn).Exported() {
+				continue
+			}
+			sites := w.staticCallSites(fn)
+			all := len(sites) > 0
+			for _, s := range sites {
+				caller := s.Parent()
+				for caller != nil && caller.Parent() != nil {
+					caller = caller.Parent()
+				}
+				if caller == nil || !(htmlFirst(caller) || exempt[caller]) {
+					all = false
+				}
+			}
+			if all {
+				exempt[fn] = true
+				changed = true
+			}
+		}
+	}
 	for fn := range member {
-		if fn == m.top {
+		if fn == m.top || exempt[fn] {
 			continue
 		}
 		names = append(names, ssaName(fn))
